@@ -195,22 +195,33 @@ Proof.
   eapply Permutation_in in I; [|apply isort_perm]. apply filter_In in I. destruct I as [I E]. apply String.eqb_eq in E. auto.
 Qed.
 
+Lemma prims_ok_sopen seen s k now rest : (In k (keys s) \/ ~ In k seen) -> (forall s', prims_ok seen s' rest) ->
+  prims_ok seen s (sopen s k now ++ rest).
+Proof.
+  intros Hk Hr. unfold sopen. cbn [app prims_ok]. split; [exact Logic.I|]. split.
+  { cbn [prim_ok]. destruct Hk as [Hk|Hk]; auto. left. cbn [run_sprim]. destruct (shas_dir s (k_dag k)); auto. }
+  destruct (sget s k) as [f|]; [|apply Hr]. destruct (ftail f); cbn [app prims_ok]; try apply Hr; (split; [|apply Hr]); left; reflexivity.
+Qed.
+
 Lemma op_prims_ok h seen o : incl (keys (sst h)) seen -> op_okb h seen o = true ->
   prims_ok seen (sst h) (sprims kname kpath o h).
 Proof.
   intros IS O. destruct o; simpl in *.
-  - apply andb_prop in O. destruct O as [O1 _]. apply negb_true_iff in O1. apply memk_false in O1. auto.
+  - apply andb_prop in O. destruct O as [O1 _]. apply negb_true_iff in O1. apply memk_false in O1.
+    pose proof (prims_ok_sopen seen (sst h) (mkkey d stamp (trunc8 req) false) now [] (or_intror O1) (fun _ => Logic.I)) as X.
+    rewrite app_nil_r in X. exact X.
   - destruct (swr h) as [w|]; simpl; auto. destruct (sw_fd w) as [k|]; simpl; auto.
     apply prims_ok_appends. apply Z.ltb_lt in O. eapply Forall_impl; [|apply chunks_pos; simpl; exact O]. intros c Hc. auto.
   - destruct (swr h) as [w|]; simpl; auto. destruct (sget (sst h) (sw_key w)); simpl; auto. destruct (parse f); simpl; auto.
-    apply negb_true_iff in O. apply memk_false in O. split; auto. split; auto.
+    apply andb_prop in O. destruct O as [O O2].
+    apply negb_true_iff in O, O2. apply memk_false in O, O2. split; auto. split; auto. split; auto.
     apply prims_ok_app. { apply prims_ok_appends. apply Forall_forall. intros c _. auto. }
-    simpl. auto.
-  - destruct (sq_find kname kpath (sst h) d req) as [|k p] eqn:Q; simpl; auto. split; auto.
+    simpl. split; auto. split; auto. apply tmpk_neq. reflexivity.
+  - destruct (sq_find kname kpath (sst h) d req) as [|k p] eqn:Q; [simpl; auto|].
     assert (Ik : In k (keys (sst h))).
     { unfold sq_find in Q. apply sfind_key in Q. apply in_map_iff in Q. destruct Q as [e [E I]]. apply sglob_sub in I. destruct I as [I _].
       subst k. unfold keys. apply in_map. auto. }
-    split. { left. destruct (shas_dir (sst h) (k_dag k)); auto. }
+    apply (prims_ok_sopen seen (sst h) k now); auto. intros s'.
     apply prims_ok_appends. apply Z.ltb_lt in O. eapply Forall_impl; [|apply chunks_pos; simpl; exact O]. intros c Hc. auto.
   - apply andb_prop in O. destruct O as [O O3]. apply andb_prop in O. destruct O as [O1 O2].
     apply negb_true_iff in O1. apply String.eqb_neq in O1.
